@@ -564,9 +564,10 @@ class Automaton:
         ERROR 'Unknown task.' and the requester is disconnected;
       * LOG records are forwarded to the owner while the owner is connected;
       * an ERROR is forwarded to the owner only while the task is open
-        (RUNNING/DONE): `strict_errors`.  The code forwards it for cancelled
-        and delivered tasks too (finding); with strict_errors=False the
-        automaton follows the code."""
+        (RUNNING/DONE); errors of cancelled, delivered or unknown
+        compilations are discarded (`strict_errors`; the code before fix
+        3a23d26 forwarded them - that is reported as
+        `stale-error-forwarded:*` if it comes back)."""
 
     def __init__(self, strict_errors=True):
         self.conn = set()
@@ -1565,13 +1566,15 @@ def client_checks(ck_rng, thorough):
                     f'{cap.got}, the property requires {exp} with logs '
                     f'{logs_before}', {'sequence': line}, True))
 
-    # (1b) `_recv_log_error_until_empty` as it is (incl. the known defect)
-    for k in range(0, 4):
+    # (1b) `_recv_log_error_until_empty`: pending LOGs are passed through,
+    # a pending ERROR raises, anything else is a protocol error
+    for k in range(0, 5 if thorough else 4):
         for seq in it.product(toks, repeat=k):
             c = FakeConn('peer', [])
             comp = new_client_compiler(c)
             for tok, x in seq:
                 c.inbox.append(wire(tok, x))
+            del cap.got[:]
             try:
                 comp._recv_log_error_until_empty()
                 got = 'clean'
@@ -1584,10 +1587,28 @@ def client_checks(ck_rng, thorough):
                 got = 'attributeError'
             except Exception as e:
                 got = f'crashed {type(e).__name__}'
-            lines.append('predrain ' + ' '.join(
-                tok if x is None else f'{tok} {x}' for tok, x in seq))
+            line = 'predrain ' + ' '.join(
+                tok if x is None else f'{tok} {x}' for tok, x in seq)
+            lines.append(line)
             impl.append(got)
             stats['predrain_sequences'] += 1
+            logs_before, exp = [], 'clean'
+            for tok, x in seq:
+                if tok == 'L':
+                    logs_before.append(f'log-{x}')
+                elif tok == 'E':
+                    exp = f'raised {x}'
+                    break
+                else:
+                    exp = 'unexpected'
+                    break
+            if got != exp or cap.got != logs_before:
+                findings.append(Finding(
+                    'client-predrain:' + got.split()[0],
+                    f'_recv_log_error_until_empty on {line}: got {got} with '
+                    f'logs {cap.got}, the property requires {exp} with logs '
+                    f'{logs_before} (pending LOG records must not make the '
+                    'next call fail)', {'sequence': line}, True))
 
     # (2) the API calls
     class Peer(FakeConn):
@@ -1709,7 +1730,7 @@ def attached_checks():
         sim = Sim(2, kind='attached')
         r = Runner(sim)
         sim.new_client(0)
-        auto = Automaton(strict_errors=False)
+        auto = Automaton(strict_errors=True)
         auto.expected('connect 0')
         for i, ev in enumerate(hist):
             if not auto.wf(ev):
